@@ -3,6 +3,9 @@
 import json, subprocess
 ALL = ["C%02d" % i for i in range(1, 21)]
 CLAIMED = {
+ "C18": dict(level="exploration", technique="metamorphic runtime differential: one logical request history rendered through 8 HTTP/batch encodings, each on its own fresh engine behind httptest, compared with the direct service call and with a sys.System twin; negative-case matrix",
+   text="Generated /api/loc/* requests with arguments that need URL/JSON/YAML escaping are sent as query parameters (three URI forms), form body, JSON body, /api/json envelope, /api/yaml and batch element; status and normalised JSON must equal the direct call and the results of the corresponding System calls; every missing / ill-typed parameter, unknown URI and failing operation must yield an error response in every rendering that can express it.",
+   note="Generated ids and timing fields are normalised; renderings without JSON types (query, form) skip the ill-typed cases; events/retry and the admin/sys URIs are outside the /api/loc family exercised here.", ref="§5 C18"),
  "C17": dict(level="exploration", technique="twin-configuration differential over request histories (cache TTL x existence checking x state vs direct operation), forced and delayed schedules at verifhook points for concurrent first requests with load counting, porcupine register histories under overlapping requests; race detector",
    text="The same generated histories are run through the System under every cache setting and directly on locations and must agree request by request; concurrent first requests (seeded delays and a forced interleaving with an opener parked inside the loading gap) must load once and lose no acknowledged write; overlapping requests under never/short TTLs are checked as per-key register histories.",
    note="Loads are counted through GetStats().NewLocations, storage through PeekStorage; schedules are sampled plus one forced interleaving; stale instances after an eviction-in-use under finite TTLs are the open finding c17.release-evicts-in-use.", ref="§5 C17"),
@@ -61,7 +64,7 @@ CLAIMED = {
    text="Every generated (pattern, data, initial bindings, Go typing) case is executed on the real matcher and compared as a set of bindings with a 60-line reference enumerator; held-on-K-cases assurance, the right level for a for-all-inputs claim about a dependency-backed function that cannot be enumerated.",
    note="Trusts lib/ref.Match as the specification and the generator's fragment; the sheens repeated-variable behaviour is an open known finding judged through a named relaxed model (MatchLoose).", ref="§5 C05"),
 }
-PENDING_REASON = "check not built yet in this round (planned, see DESIGN.md §5); no claim is made"
+PENDING_REASON = "not claimed"
 def main():
     checks = []
     for pid in ALL:
